@@ -14,6 +14,7 @@ package main
 
 import (
 	"bufio"
+	"bytes"
 	"crypto/elliptic"
 	"crypto/mlkem"
 	"crypto/sha3"
@@ -131,6 +132,7 @@ func scalar(r *rand.Rand, group string) []byte {
 type party struct {
 	c   cfg
 	sk  []byte
+	sk2 []byte // route factory2raw: the private key of ANOTHER raw key that precedes the matching one in the keyset
 	enc tink.HybridEncrypt
 	dec tink.HybridDecrypt
 }
@@ -235,8 +237,14 @@ func fromHandle(h *keyset.Handle) (tink.HybridEncrypt, tink.HybridDecrypt, error
 
 // build constructs the real primitives for c with the recipient private key sk. An error means the
 // library refuses the configuration (recorded as coverage, not judged: DESIGN section 4).
-func build(c cfg, sk []byte) (*party, error) {
+func build(c cfg, sk []byte, sk2 ...[]byte) (*party, error) {
 	p := &party{c: c, sk: append([]byte{}, sk...)}
+	if c.Route == "factory2raw" {
+		if len(sk2) != 1 || c.Variant != "NO_PREFIX" {
+			return nil, fmt.Errorf("factory2raw needs a second key and NO_PREFIX")
+		}
+		p.sk2 = append([]byte{}, sk2[0]...)
+	}
 	if c.Route == "subtle" {
 		curve, err := hsubtle.GetCurve(map[string]string{"P256": "NIST_P256", "P384": "NIST_P384", "P521": "NIST_P521"}[c.Curve])
 		if err != nil {
@@ -258,25 +266,34 @@ func build(c cfg, sk []byte) (*party, error) {
 	if c.Variant == "NO_PREFIX" {
 		idReq = 0
 	}
-	var k key.Key
-	if c.Scheme == "HPKE" {
-		params, err := hpkeParams(c)
-		if err != nil {
-			return nil, err
+	mkKey := func(sk []byte) (key.Key, error) {
+		if c.Scheme == "HPKE" {
+			params, err := hpkeParams(c)
+			if err != nil {
+				return nil, err
+			}
+			return hpke.NewPrivateKey(secretdata.NewBytesFromData(append([]byte{}, sk...), tok), idReq, params)
 		}
-		if k, err = hpke.NewPrivateKey(secretdata.NewBytesFromData(sk, tok), idReq, params); err != nil {
-			return nil, err
-		}
-	} else {
 		params, err := eciesParams(c)
 		if err != nil {
 			return nil, err
 		}
-		if k, err = ecies.NewPrivateKey(secretdata.NewBytesFromData(sk, tok), idReq, params); err != nil {
+		return ecies.NewPrivateKey(secretdata.NewBytesFromData(append([]byte{}, sk...), tok), idReq, params)
+	}
+	k, err := mkKey(sk)
+	if err != nil {
+		return nil, err
+	}
+	km := keyset.NewManager()
+	if p.sk2 != nil { // two raw keys; the matching (primary) one comes second, so Decrypt tries the other key first
+		k2, err := mkKey(p.sk2)
+		if err != nil {
+			return nil, err
+		}
+		if _, err := km.AddKey(k2); err != nil {
 			return nil, err
 		}
 	}
-	km := keyset.NewManager()
 	id, err := km.AddKey(k)
 	if err != nil {
 		return nil, err
@@ -417,19 +434,30 @@ func (c cfg) ev(name string) vt.Ev {
 
 func (p *party) fill(e vt.Ev, ct []byte) {
 	a := mlDecaps(p.c, p.sk, ct)
-	e["skR"] = vt.Hex(p.sk)
+	e["skR"], e["sk2"] = vt.Hex(p.sk), vt.Hex(p.sk2)
 	e["ml_param"], e["ml_seed"], e["ml_ct"], e["ml_ok"], e["ml_ss"] = a.Param, a.Seed, a.Ct, a.Ok, a.Ss
 }
 
-func (p *party) encryptEv(w *vt.Writer, kind string, pt, info []byte) []byte {
-	var ct []byte
+func clone(b []byte) []byte { return append(make([]byte, 0, len(b)+32), b...) } // spare capacity: room for in-place tricks
+
+// Oracle independence: every logged INPUT comes from a value Tink never had access to. The slices handed to a
+// Tink call are separate buffers (buf...) that the caller of the API would own; whatever Tink does to them
+// cannot change what the event says was passed. Sequences that deliberately REUSE a buffer across calls (as a
+// caller who still believes it holds his ciphertext would) log the pristine value again and name the preceding
+// call in "pre"/"pre_info", so that a replay can re-execute the sequence.
+
+// encryptOn calls Encrypt on the caller-owned buffers pbuf/ibuf; pt/info are the pristine values they hold(held).
+func (p *party) encryptOn(w *vt.Writer, kind, pre string, pbuf, ibuf, pt, info []byte) []byte {
+	var out []byte
 	var err error
-	pn, pv := vt.Try(func() { ct, err = p.enc.Encrypt(pt, info) })
+	pn, pv := vt.Try(func() { out, err = p.enc.Encrypt(pbuf, ibuf) })
+	ct := append([]byte{}, out...)
 	e := p.c.ev("encrypt")
 	p.fill(e, ct)
-	e["class"], e["kind"], e["want"] = "enc", kind, ""
+	e["class"], e["kind"], e["want"], e["pre"], e["pre_info"] = "enc", kind, "", pre, ""
 	e["pt"], e["info"], e["ct"] = vt.Hex(pt), vt.Hex(info), vt.Hex(ct)
 	e["err"], e["panic"] = err != nil, pn
+	e["in_intact"] = bytes.Equal(pbuf, pt) && bytes.Equal(ibuf, info)
 	if pn {
 		e["panicVal"] = fmt.Sprint(pv)
 	}
@@ -440,22 +468,54 @@ func (p *party) encryptEv(w *vt.Writer, kind string, pt, info []byte) []byte {
 	return ct
 }
 
-func (p *party) decryptEv(w *vt.Writer, class, kind string, ct, info, want []byte) {
+// encryptEv encrypts (pt, info), then once more from the SAME plaintext / context buffers; returns the first ciphertext.
+func (p *party) encryptEv(w *vt.Writer, kind string, pt, info []byte) []byte {
+	pt, info = append([]byte{}, pt...), append([]byte{}, info...)
+	pbuf, ibuf := clone(pt), clone(info)
+	ct := p.encryptOn(w, kind, "", pbuf, ibuf, pt, info)
+	p.encryptOn(w, kind+"-again-same-buffers", "same", pbuf, ibuf, pt, info)
+	return ct
+}
+
+// decryptOn calls Decrypt on the caller-owned buffers buf/ibuf; ct/info are the pristine values the caller put there.
+func (p *party) decryptOn(w *vt.Writer, class, kind, pre string, preInfo, buf, ibuf, ct, info, want []byte) {
 	var pt []byte
 	var err error
-	pn, pv := vt.Try(func() { pt, err = p.dec.Decrypt(ct, info) })
-	e := p.c.ev("decrypt")
-	p.fill(e, ct)
-	e["class"], e["kind"], e["want"] = class, kind, vt.Hex(want)
+	pn, pv := vt.Try(func() { pt, err = p.dec.Decrypt(buf, ibuf) })
 	if err != nil || pn {
 		pt = nil
 	}
+	pt = append([]byte{}, pt...)
+	e := p.c.ev("decrypt")
+	p.fill(e, ct)
+	e["class"], e["kind"], e["want"], e["pre"], e["pre_info"] = class, kind, vt.Hex(want), pre, vt.Hex(preInfo)
 	e["pt"], e["info"], e["ct"] = vt.Hex(pt), vt.Hex(info), vt.Hex(ct)
 	e["err"], e["panic"] = err != nil || pn, pn
+	e["in_intact"] = bytes.Equal(buf, ct) && bytes.Equal(ibuf, info)
 	if pn {
 		e["panicVal"] = fmt.Sprint(pv)
 	}
 	w.Emit(e)
+}
+
+// decryptEv: one Decrypt call on fresh private copies of (ct, info).
+func (p *party) decryptEv(w *vt.Writer, class, kind string, ct, info, want []byte) {
+	ct, info = append([]byte{}, ct...), append([]byte{}, info...)
+	p.decryptOn(w, class, kind, "", nil, clone(ct), clone(info), ct, info, want)
+}
+
+// reuse decrypts a valid ciphertext the way a caller may: twice from the same buffer, and (on a second buffer)
+// after a failing attempt with another context info. Each call is its own event; the round-trip clause makes every
+// call with the right context return the plaintext.
+func (p *party) reuse(w *vt.Writer, class, kind string, ct, info, want []byte) {
+	ct, info = append([]byte{}, ct...), append([]byte{}, info...)
+	buf, ibuf := clone(ct), clone(info)
+	p.decryptOn(w, class, kind, "", nil, buf, ibuf, ct, info, want)
+	p.decryptOn(w, class, "again-same-buffer", "same", info, buf, ibuf, ct, info, want)
+	wrong := append(append([]byte{}, info...), 0x5a)
+	buf2 := clone(ct)
+	p.decryptOn(w, "mut", "info-wrong-same-buffer", "", nil, buf2, clone(wrong), ct, wrong, nil)
+	p.decryptOn(w, class, "after-wrong-context-same-buffer", "wrongctx", wrong, buf2, clone(info), ct, info, want)
 }
 
 func flip(b []byte, byteIdx int, bit uint) []byte {
@@ -794,7 +854,7 @@ func runTink(w *vt.Writer) {
 			if ct == nil {
 				continue
 			}
-			p.decryptEv(w, "own", "own", ct, info, nil)
+			p.reuse(w, "own", "own", ct, info, nil)
 			level := 0
 			if li == 0 {
 				level = 1
@@ -820,6 +880,7 @@ func runTink(w *vt.Writer) {
 		}
 	}
 	edgeKeys(w, r)
+	twoRawKeys(w, r)
 	// the key-manager path: fresh keys from the published key templates
 	tmpls := []*tinkpb.KeyTemplate{
 		hybrid.DHKEM_P256_HKDF_SHA256_HKDF_SHA256_AES_128_GCM_Key_Template(), hybrid.DHKEM_P256_HKDF_SHA256_HKDF_SHA256_AES_128_GCM_Raw_Key_Template(),
@@ -849,12 +910,45 @@ func runTink(w *vt.Writer) {
 			if ct == nil {
 				continue
 			}
-			p.decryptEv(w, "own", "own", ct, info, nil)
+			p.reuse(w, "own", "own", ct, info, nil)
 			var o *party
 			if p.c.Variant == "NO_PREFIX" {
 				o = other
 			}
 			mutate(w, p, o, ct, info, r, li)
+		}
+	}
+}
+
+// twoRawKeys: keysets with two NO_PREFIX keys of the same parameters where the matching (primary) key is the SECOND
+// one, so that the factory's Decrypt first fails with the other key on the caller's buffer and then must succeed.
+func twoRawKeys(w *vt.Writer, r *rand.Rand) {
+	cs := []cfg{
+		{Scheme: "HPKE", Kem: "X25519", Kdf: "SHA256", Aead: "AES128GCM"}, {Scheme: "HPKE", Kem: "P256", Kdf: "SHA512", Aead: "AES256GCM"},
+		{Scheme: "HPKE", Kem: "XWING", Kdf: "SHA384", Aead: "CHACHA20POLY1305"}, {Scheme: "HPKE", Kem: "MLKEM768", Kdf: "SHA256", Aead: "AES256GCM"},
+		{Scheme: "HPKE", Kem: "P521", Kdf: "SHA256", Aead: "CHACHA20POLY1305"},
+		{Scheme: "ECIES", Curve: "P256", Hash: "SHA256", Fmt: "UNCOMPRESSED", Dem: "AES128GCM"},
+		{Scheme: "ECIES", Curve: "P384", Hash: "SHA512", Fmt: "COMPRESSED", Dem: "AES256SIV", Salt: []byte{1, 2, 3}},
+		{Scheme: "ECIES", Curve: "P256", Hash: "SHA1", Fmt: "DO_NOT_USE_CRUNCHY_UNCOMPRESSED", Dem: "AES128CTRHMAC"},
+		{Scheme: "ECIES", Curve: "P521", Hash: "SHA384", Fmt: "UNCOMPRESSED", Dem: "AES256CTRHMAC"},
+	}
+	for i, c := range cs {
+		c.Route, c.Variant = "factory2raw", "NO_PREFIX"
+		if !keep(c) {
+			continue
+		}
+		p, err := build(c, scalar(r, c.group()), scalar(r, c.group()))
+		if err != nil {
+			e := c.ev("construct")
+			e["err"] = true
+			w.Emit(e)
+			continue
+		}
+		for k := 0; k < 2; k++ {
+			pt, info := content(r, []int{0, 33}[k]+i, i+k), infos(r, i+k)
+			if ct := p.encryptEv(w, "tink-2rawkeys", pt, info); ct != nil {
+				p.reuse(w, "own", "own", ct, info, nil)
+			}
 		}
 	}
 }
@@ -904,7 +998,7 @@ func edgeKeys(w *vt.Writer, r *rand.Rand) {
 		}
 		pt, info := content(r, 1+i, i), infos(r, i)
 		if ct := p.encryptEv(w, "tink-edgekey", pt, info); ct != nil {
-			p.decryptEv(w, "own", "own", ct, info, nil)
+			p.reuse(w, "own", "own", ct, info, nil)
 			mutate(w, p, nil, ct, info, r, 0)
 		}
 	}
@@ -967,6 +1061,13 @@ func writePlan(path string) {
 	fmt.Printf("plan=%d\n", w.Count())
 }
 
+func sk2FromEvent(e map[string]any) [][]byte {
+	if s, _ := e["sk2"].(string); s != "" {
+		return [][]byte{vt.Unhex(s)}
+	}
+	return nil
+}
+
 func cfgFromEvent(e map[string]any) (cfg, []byte) {
 	str := func(k string) string { s, _ := e[k].(string); return s }
 	var id uint32
@@ -1002,7 +1103,7 @@ func runRefCases(w *vt.Writer, path string) {
 			vt.Fatal("refcases: cannot rebuild the recipient of case %d: %v", n, err)
 		}
 		ct, info, pt := vt.Unhex(e["ct"].(string)), vt.Unhex(e["info"].(string)), vt.Unhex(e["pt"].(string))
-		p.decryptEv(w, "ref", "reference-made", ct, info, pt)
+		p.reuse(w, "ref", "reference-made", ct, info, pt)
 		if n%4 == 0 || vt.Thorough() {
 			mutate(w, p, nil, ct, info, r, 0)
 		}
@@ -1031,15 +1132,28 @@ func replay(path string, w *vt.Writer) {
 	if c.Route == "template" {
 		c.Route = "factory"
 	}
-	p, err := build(c, sk)
+	p, err := build(c, sk, sk2FromEvent(e)...)
 	if err != nil {
 		vt.Fatal("replay: cannot construct the primitives: %v", err)
 	}
+	ct, info, want := vt.Unhex(str("ct")), vt.Unhex(str("info")), vt.Unhex(str("want"))
 	switch str("ev") {
-	case "encrypt":
-		p.encryptEv(w, str("kind"), vt.Unhex(str("pt")), vt.Unhex(str("info")))
+	case "encrypt": // both calls of the sequence (the second reuses the buffers of the first)
+		p.encryptEv(w, strings.TrimSuffix(str("kind"), "-again-same-buffers"), vt.Unhex(str("pt")), info)
 	case "decrypt":
-		p.decryptEv(w, str("class"), str("kind"), vt.Unhex(str("ct")), vt.Unhex(str("info")), vt.Unhex(str("want")))
+		buf := clone(ct)
+		switch str("pre") {
+		case "same": // the same call once before, on the same buffers
+			ibuf := clone(info)
+			p.decryptOn(w, str("class"), "replay-first-call", "", nil, buf, ibuf, ct, info, want)
+			p.decryptOn(w, str("class"), str("kind"), "same", info, buf, ibuf, ct, info, want)
+		case "wrongctx": // a failing attempt with another context on the same ciphertext buffer before
+			wrong := vt.Unhex(str("pre_info"))
+			p.decryptOn(w, "mut", "info-wrong-same-buffer", "", nil, buf, clone(wrong), ct, wrong, nil)
+			p.decryptOn(w, str("class"), str("kind"), "wrongctx", wrong, buf, clone(info), ct, info, want)
+		default:
+			p.decryptOn(w, str("class"), str("kind"), "", nil, buf, clone(info), ct, info, want)
+		}
 	default:
 		vt.Fatal("replay: unsupported event %q", str("ev"))
 	}
